@@ -1364,6 +1364,42 @@ func (g *c15Gen) terminal() {
 			return c
 		})
 	}
+	// -p together with any other source of recipients, WITH a terminal that would answer the passphrase prompts: the flag
+	// conflict must end the run before anything is asked, derived or written (without a terminal -p fails anyway, which
+	// hides a missing conflict check)
+	for _, other := range []string{"r", "R", "i", "j", "ij", "ji"} {
+		other := other
+		many(func(r *h.Rand) *cliCase {
+			key := g.e.keys[0]
+			c := newCase("tty-p-conflict")
+			c.flags, c.sumMode = "p", "len"
+			if r.Bool() {
+				c.flags = "ep"
+			}
+			switch other {
+			case "r":
+				c.recs = []flagged{{key.recLine, true}}
+			case "R":
+				c.files["recs.txt"] = file([]byte(key.recLine+"\n"), 0644)
+				c.recFiles = []flagged{{"recs.txt", true}}
+			default:
+				for _, k := range other {
+					if k == 'i' {
+						c.files["key.txt"] = file(key.idFile, 0600)
+						c.ids = append(c.ids, idFlag{"i", "key.txt", true})
+					} else {
+						c.ids = append(c.ids, idFlag{"j", "nonesuch", true})
+					}
+				}
+			}
+			c.setInput(h.Pick(r, []string{"file", "stdin"}), "in.bin", r.Bytes(10))
+			c.setOutput(h.Pick(r, []string{"file", "existing"}), "out.age")
+			c.tty = &ttySpec{answers: []string{"pw pw", "pw pw"}}
+			c.passOK, c.expect = true, "fail"
+			c.note = "-p together with -" + other + " under a terminal that would answer the prompts"
+			return c
+		})
+	}
 	many(func(r *h.Rand) *cliCase {
 		c := newCase("tty-p-samefile")
 		c.flags, c.sumMode = "p", "len"
